@@ -10,16 +10,25 @@ PROP = "C07"
 
 def workload(tier: str, seed: int) -> tuple[list[dict], dict]:
     if tier == "quick":
-        want = {"corpus": 1, "core-exh": 100000, "core-rand": 300, "edge": 40, "start-block": 40}
+        want = {"corpus": 1, "core-exh": 100000, "core-rand": 300, "edge": 60, "start-block": 40,
+                "loop-families": 1}
         ks = (2,)
     else:
         want = {"corpus": 1, "core-exh": 100000, "core-rand": 4000, "edge": 400,
-                "start-block": 600}
+                "start-block": 600, "loop-families": 1}
         ks = (2, 3)
     defs = [d for d in lcase.definitions(tier, seed + 3000, want)
             if puml.has_kind(d["ast"], ("loop",))]
     if tier == "quick":
-        defs = defs[:170] + [d for d in defs[170:] if d["kind"] == "start-block"]
+        caps = {"corpus": 100, "core-exh": 90, "core-rand": 25, "edge": 40, "start-block": 100,
+                "loop-families": 100}
+        seen: dict[str, int] = {}
+        kept = []
+        for d in defs:
+            seen[d["kind"]] = seen.get(d["kind"], 0) + 1
+            if seen[d["kind"]] <= caps.get(d["kind"], 0):
+                kept.append(d)
+        defs = kept
     cases, stats = lcase.s1_cases(defs, seed, k_list=ks, schedules=1, check_extra=False,
                                   watch_loops=True)
     c2, st2 = lcase.s2_cases(defs, seed, per_def=1, watch_loops=True)
